@@ -1,17 +1,951 @@
+// Package container drives the real Container contract (compiled from the
+// working tree and deployed next to NNS, Netmap, Balance and NeoFSID on an
+// in-process ledger with a generated committee) through scenarios generated
+// by TLC from spec/Container.tla / spec/ContainerRoster.tla, by seeded random
+// walkers and by hand-written traps, and records every step with the full
+// projected state (read API + raw storage + NNS records + NEOFS balances) as
+// ndjson for the trace monitors spec/ContainerTrace.tla (C04, C05) and
+// spec/ContainerRosterTrace.tla (C14).
+//
+// VERIF_FAMMODE selects the family half: "registry" (default) or "roster".
 package container
 
 import (
+	"bytes"
+	"crypto/sha256"
+	"encoding/hex"
+	"encoding/json"
+	"fmt"
+	"math/big"
+	"math/rand"
+	"os"
+	"sort"
+	"strconv"
+	"testing"
+
+	"github.com/mr-tron/base58"
+	"github.com/nspcc-dev/neo-go/pkg/core/state"
+	"github.com/nspcc-dev/neo-go/pkg/encoding/address"
 	"github.com/nspcc-dev/neo-go/pkg/neotest"
 	"github.com/nspcc-dev/neo-go/pkg/util"
+	"github.com/nspcc-dev/neo-go/pkg/vm/stackitem"
 	"github.com/stretchr/testify/require"
 
 	"verif/harness/chain"
 )
 
+// Step is one invocation in model vocabulary (the ev record of Container.tla).
+type Step struct {
+	Act  string   `json:"act"`
+	S    []string `json:"S"`
+	C    string   `json:"c"`
+	V    string   `json:"v"`
+	Nm   string   `json:"nm"`
+	Meta bool     `json:"meta"`
+	O    string   `json:"o"`
+	K    string   `json:"k"`
+	Amt  int64    `json:"amt"`
+}
+
+// Scenario is a sequence of steps on a fresh chain.
+type Scenario struct {
+	N     int    `json:"n"`     // committee size
+	Scale int    `json:"scale"` // index into scales
+	Src   string `json:"src"`   // "tlc" | "rand" | "trap:<name>"
+	Steps []Step `json:"steps"`
+}
+
+var scales = []*big.Int{
+	big.NewInt(1),
+	big.NewInt(1_0000_0000),
+	new(big.Int).Lsh(big.NewInt(1), 40),
+	new(big.Int).Exp(big.NewInt(10), big.NewInt(30), nil),
+}
+
+const (
+	nOwners = 3
+	nCids   = 6 // c0..c5; c0 is never put
+	nNames  = 3
+)
+
+// owner of the model container ci (the same table as S_COwner / M_COwner in the specs)
+var cidOwner = []string{"o1", "o1", "o1", "o2", "o2", "o3"}
+
+// version-field lengths of the container blobs (owner offset = 2 + L + 4)
+var cidVerLen = []int{0, 0, 1, 5, 250, 17}
+
+type variant struct {
+	sig, pub, token []byte
+}
+
+type world struct {
+	t                         *testing.T
+	c                         *chain.Chain
+	nns, nm, bal, nid, cn     util.Uint160
+	owners                    map[string]neotest.Signer
+	ownerID                   map[string][]byte
+	blob                      map[string][]byte
+	cid                       map[string][]byte
+	cidName                   map[string]string // hex(cid) -> model name
+	vars                      map[string]variant
+	evars                     map[string]variant // eACL variants (sig,pub,token)
+	accName                   map[string]string  // hex(script hash BE) -> model account name
+	U                         *big.Int
+	bad                       []string
+	stranger                  neotest.Signer
+	seed                      int64
+	step                      int
+}
+
+func ownerIDOf(h util.Uint160) []byte {
+	o, _ := base58.Decode(address.Uint160ToString(h))
+	return o
+}
+
+func detBytes(seed int64, label string, n int) []byte {
+	out := make([]byte, 0, n+32)
+	for ctr := 0; len(out) < n; ctr++ {
+		h := sha256.Sum256([]byte(fmt.Sprintf("verif-bytes|%d|%s|%d", seed, label, ctr)))
+		out = append(out, h[:]...)
+	}
+	return out[:n]
+}
+
+func domainOf(nm string) string { return "alias-" + nm + ".container" }
+
 func deployContainer(c *chain.Chain) util.Uint160 {
+	// Container's _deploy registers its alias TLD through NNS, which needs the committee witness; the
+	// deploy transaction of harness/chain carries only the validators' one (they differ for n = 3, 7),
+	// so the TLD is registered by the committee beforehand (registerNiceNameTLD then skips it).
 	nns, err := c.E.Chain.GetContractScriptHash(1)
 	require.NoError(c.T, err)
 	r := c.Run(nns, []neotest.Signer{c.Cmt}, "registerTLD", "container", "ops@nspcc.ru", int64(3600), int64(600), int64(3600*24*365*10), int64(3600))
 	require.True(c.T, r.Halt, r.Fault)
 	return c.DeployContainer()
+}
+
+func newWorld(t *testing.T, n int, scale int, seed int64) *world {
+	c := chain.New(t, n, seed)
+	w := &world{t: t, c: c, owners: map[string]neotest.Signer{}, ownerID: map[string][]byte{}, blob: map[string][]byte{},
+		cid: map[string][]byte{}, cidName: map[string]string{}, vars: map[string]variant{}, evars: map[string]variant{},
+		accName: map[string]string{}, U: scales[scale%len(scales)], seed: seed}
+	w.nns = c.DeployNNS()
+	w.nm = c.DeployNetmap("ContainerFee", int64(0), "ContainerAliasFee", int64(0))
+	w.bal = c.DeployBalance()
+	w.nid = c.DeployNeoFSID()
+	w.cn = deployContainer(c)
+	for i := 1; i <= nOwners; i++ {
+		nm := "o" + strconv.Itoa(i)
+		s := c.NewUser(nm, 0)
+		w.owners[nm] = s
+		w.ownerID[nm] = ownerIDOf(s.ScriptHash())
+		w.accName[hex.EncodeToString(s.ScriptHash().BytesBE())] = nm
+	}
+	for k, p := range c.Privs {
+		w.accName[hex.EncodeToString(p.PublicKey().GetScriptHash().BytesBE())] = "A" + strconv.Itoa(k+1)
+	}
+	w.stranger = c.NewUser("stranger", 0)
+	for i := 0; i < nCids; i++ {
+		nm := "c" + strconv.Itoa(i)
+		L := cidVerLen[i]
+		b := detBytes(seed, "blob"+nm, 2+L+4+25+40)
+		b[1] = byte(L)
+		copy(b[2+L+4:], w.ownerID[cidOwner[i]])
+		id := sha256.Sum256(b)
+		w.blob[nm] = b
+		w.cid[nm] = id[:]
+		w.cidName[hex.EncodeToString(id[:])] = nm
+	}
+	for _, v := range []string{"a", "b"} {
+		tok := detBytes(seed, "tok"+v, 42)
+		if v == "b" {
+			tok = []byte{}
+		}
+		w.vars[v] = variant{sig: detBytes(seed, "sig"+v, 64), pub: chain.DetKey(seed, "pub"+v).PublicKey().Bytes(), token: tok}
+		w.evars[v] = variant{sig: detBytes(seed, "esig"+v, 64), pub: chain.DetKey(seed, "epub"+v).PublicKey().Bytes(),
+			token: detBytes(seed, "etok"+v, 30)}
+	}
+	return w
+}
+
+// eACL blob of variant v for container c: [x, L, L bytes, 4 bytes, cid, tail]; L depends on the variant
+func (w *world) eaclBlob(c, v string) []byte {
+	L := 0
+	if v == "b" {
+		L = 20
+	}
+	b := detBytes(w.seed, "eacl"+v, 2+L+4+32+10)
+	b[1] = byte(L)
+	copy(b[2+L+4:], w.cid[c])
+	return b
+}
+
+func (w *world) cidNameOf(b []byte) string {
+	if n, ok := w.cidName[hex.EncodeToString(b)]; ok {
+		return n
+	}
+	return "?" + hex.EncodeToString(b)
+}
+
+func (w *world) accNameOf(b []byte) string {
+	if len(b) == 0 {
+		return "nil"
+	}
+	if n, ok := w.accName[hex.EncodeToString(b)]; ok {
+		return n
+	}
+	return "?" + hex.EncodeToString(b)
+}
+
+// signer set: model names -> signers; returns the normalised name list: accounts that coincide with the
+// Alphabet / committee account carry that role too (ALPHA = CMT for n in {1,4}).
+func (w *world) signers(S []string) ([]neotest.Signer, []string) {
+	var out []neotest.Signer
+	set := map[string]bool{}
+	add := func(s neotest.Signer) {
+		out = append(out, s)
+		if s.ScriptHash() == w.c.Alpha.ScriptHash() {
+			set["ALPHA"] = true
+		}
+		if s.ScriptHash() == w.c.Cmt.ScriptHash() {
+			set["CMT"] = true
+		}
+	}
+	for _, s := range S {
+		set[s] = true
+		switch s {
+		case "ALPHA":
+			add(w.c.Alpha)
+		case "CMT":
+			add(w.c.Cmt)
+		case "M1":
+			add(w.c.Members[0])
+		case "X":
+			add(w.stranger)
+		default:
+			u, ok := w.owners[s]
+			require.True(w.t, ok, "unknown signer %s", s)
+			add(u)
+		}
+	}
+	names := make([]string, 0, len(set))
+	for s := range set {
+		names = append(names, s)
+	}
+	sort.Strings(names)
+	return out, names
+}
+
+func (w *world) amount(m int64) *big.Int { return new(big.Int).Mul(big.NewInt(m), w.U) }
+
+func (w *world) unscale(b *big.Int, what string) int64 {
+	if b == nil {
+		w.bad = append(w.bad, what+"=nil")
+		return 0
+	}
+	q, r := new(big.Int).QuoRem(b, w.U, new(big.Int))
+	if r.Sign() != 0 || !q.IsInt64() || q.Int64() > 1<<30 || q.Int64() < -(1<<30) {
+		w.bad = append(w.bad, what+"="+b.String())
+		return 0
+	}
+	return q.Int64()
+}
+
+func (w *world) exec(st Step) chain.Rec {
+	sg, names := w.signers(st.S)
+	var r *chain.Result
+	w.step++
+	switch st.Act {
+	case "put":
+		v, ok := w.vars[st.V]
+		require.True(w.t, ok, "variant %q", st.V)
+		b := w.blob[st.C]
+		require.NotNil(w.t, b, "cid %q", st.C)
+		switch {
+		case st.Nm != "nil":
+			r = w.c.Run(w.cn, sg, "putNamed", b, v.sig, v.pub, v.token, "alias-"+st.Nm, "")
+		case st.Meta:
+			r = w.c.Run(w.cn, sg, "put", b, v.sig, v.pub, v.token, true)
+		case w.step%2 == 0:
+			r = w.c.Run(w.cn, sg, "put", b, v.sig, v.pub, v.token, false)
+		default:
+			r = w.c.Run(w.cn, sg, "put", b, v.sig, v.pub, v.token)
+		}
+	case "delete":
+		r = w.c.Run(w.cn, sg, "delete", w.cid[st.C], detBytes(w.seed, "dsig", 64), []byte{})
+	case "setEACL":
+		v, ok := w.evars[st.V]
+		require.True(w.t, ok, "variant %q", st.V)
+		r = w.c.Run(w.cn, sg, "setEACL", w.eaclBlob(st.C, st.V), v.sig, v.pub, v.token)
+	case "setConfig":
+		key := "ContainerFee"
+		if st.K == "afee" {
+			key = "ContainerAliasFee"
+		}
+		r = w.c.Run(w.nm, sg, "setConfig", []byte("id"), key, w.amount(st.Amt))
+	case "mint":
+		r = w.c.Run(w.bal, sg, "mint", w.owners[st.O].ScriptHash(), w.amount(st.Amt), []byte("m"))
+	case "nnsReg":
+		who := w.c.Cmt.ScriptHash()
+		if st.O == "x" {
+			who = w.stranger.ScriptHash()
+		}
+		r = w.c.Run(w.nns, sg, "register", domainOf(st.Nm), who, "ops@nspcc.ru", int64(3600), int64(600), int64(3600*24*365*10), int64(3600))
+	case "nnsAdd":
+		r = w.c.Run(w.nns, sg, "addRecord", domainOf(st.Nm), 16, "foreign")
+	default:
+		w.t.Fatalf("unknown act %q", st.Act)
+	}
+	ret := "null"
+	if r.Halt && len(r.Stack) == 1 && r.Stack[0].Type() == stackitem.BooleanT {
+		bv, _ := r.Stack[0].TryBool()
+		ret = strconv.FormatBool(bv)
+	}
+	// the application log of a FAULTed transaction still lists what was emitted before the fault; those
+	// notifications are not delivered to anybody (the transaction has no effect), so they are not events of the step
+	var evs []state.NotificationEvent
+	if r.Halt {
+		evs = r.Events
+	}
+	ntf, xfer := w.events(evs)
+	return chain.Rec{"act": st.Act, "S": names, "c": st.C, "v": st.V, "nm": st.Nm, "meta": st.Meta, "o": st.O, "k": st.K,
+		"amt": st.Amt, "res": r.Res(), "ret": ret, "ntf": ntf, "xfer": xfer, "fault": r.Fault}
+}
+
+// events: the three registry notifications of the Container contract and the Transfer notifications of Balance
+func (w *world) events(evs []state.NotificationEvent) ([]any, []any) {
+	ntf, xfer := []any{}, []any{}
+	for _, ev := range evs {
+		items, _ := ev.Item.Value().([]stackitem.Item)
+		switch {
+		case ev.ScriptHash == w.cn && (ev.Name == "PutSuccess" || ev.Name == "DeleteSuccess" || ev.Name == "SetEACLSuccess"):
+			ntf = append(ntf, map[string]any{"n": ev.Name, "c": w.cidNameOf(chain.ItemBytes(items[0]))})
+		case ev.ScriptHash == w.bal && ev.Name == "Transfer":
+			xfer = append(xfer, map[string]any{"from": w.accNameOf(chain.ItemBytes(items[0])), "to": w.accNameOf(chain.ItemBytes(items[1])),
+				"amt": w.unscale(chain.ItemBig(items[2]), "ntf.amount")})
+		}
+	}
+	return ntf, xfer
+}
+
+func (w *world) variantOf(vs map[string]variant, f []stackitem.Item) string {
+	if len(f) != 4 {
+		return "?arity"
+	}
+	for _, nm := range []string{"a", "b"} {
+		v := vs[nm]
+		if bytes.Equal(chain.ItemBytes(f[1]), v.sig) && bytes.Equal(chain.ItemBytes(f[2]), v.pub) && bytes.Equal(chain.ItemBytes(f[3]), v.token) {
+			return nm
+		}
+	}
+	return "?variant"
+}
+
+func structFields(it stackitem.Item) []stackitem.Item {
+	f, _ := it.Value().([]stackitem.Item)
+	return f
+}
+
+func isNotFound(err error) bool {
+	return err != nil && bytes.Contains([]byte(err.Error()), []byte("container does not exist"))
+}
+
+func (w *world) callList(method string, arg any) []string {
+	st, err := w.c.Call(w.cn, method, arg)
+	if err != nil {
+		return []string{"?err:" + err.Error()}
+	}
+	out := []string{}
+	if st[0].Type() == stackitem.AnyT {
+		return out
+	}
+	for _, it := range structFields(st[0]) {
+		out = append(out, w.cidNameOf(chain.ItemBytes(it)))
+	}
+	sort.Strings(out)
+	return out
+}
+
+// observe projects the five contracts into model values.
+func (w *world) observe() map[string]any {
+	cids := make([]string, nCids)
+	for i := range cids {
+		cids[i] = "c" + strconv.Itoa(i)
+	}
+	// ---- raw storage of the Container contract, decoded by key layout (DESIGN.md Appendix B)
+	x, eacl, alias := map[string]any{}, map[string]any{}, map[string]any{}
+	strayOf := map[string]any{}
+	for _, c := range cids {
+		x[c], eacl[c], alias[c] = "none", "none", "none"
+		strayOf[c] = 0
+	}
+	oidx, tomb, meta, stray := []string{}, []string{}, []string{}, []string{}
+	known := map[string]bool{"netmapScriptHash": true, "balanceScriptHash": true, "identityScriptHash": true, "nnsScriptHash": true, "nnsRoot": true}
+	for k, v := range w.c.Storage(w.cn) {
+		kb, _ := hex.DecodeString(k)
+		ok := false
+		switch {
+		case known[string(kb)]:
+			ok = true
+		case len(kb) == 33 && kb[0] == 'x':
+			if c, in := w.cidName[hex.EncodeToString(kb[1:])]; in {
+				it, err := stackitem.Deserialize(v)
+				if err == nil {
+					f := structFields(it)
+					vn := w.variantOf(w.vars, f)
+					if len(f) == 4 && !bytes.Equal(chain.ItemBytes(f[0]), w.blob[c]) {
+						vn = "?blob"
+					}
+					x[c] = vn
+					ok = true
+				}
+			}
+		case len(kb) == 58 && kb[0] == 'o':
+			if c, in := w.cidName[hex.EncodeToString(kb[26:])]; in && bytes.Equal(v, w.cid[c]) {
+				ci, _ := strconv.Atoi(c[1:])
+				if bytes.Equal(kb[1:26], w.ownerID[cidOwner[ci]]) {
+					oidx = append(oidx, c)
+					ok = true
+				}
+			}
+		case len(kb) == 33 && (kb[0] == 'd' || kb[0] == 'm'):
+			if c, in := w.cidName[hex.EncodeToString(kb[1:])]; in && len(v) == 0 {
+				if kb[0] == 'd' {
+					tomb = append(tomb, c)
+				} else {
+					meta = append(meta, c)
+				}
+				ok = true
+			}
+		case len(kb) == 36 && string(kb[:4]) == "eACL":
+			if c, in := w.cidName[hex.EncodeToString(kb[4:])]; in {
+				it, err := stackitem.Deserialize(v)
+				if err == nil {
+					f := structFields(it)
+					vn := w.variantOf(w.evars, f)
+					if vn[0] != '?' && !bytes.Equal(chain.ItemBytes(f[0]), w.eaclBlob(c, vn)) {
+						vn = "?blob"
+					}
+					eacl[c] = vn
+					ok = true
+				}
+			}
+		case len(kb) == 43 && string(kb[:11]) == "nnsHasAlias":
+			if c, in := w.cidName[hex.EncodeToString(kb[11:])]; in {
+				alias[c] = w.nameOfDomain(string(v))
+				ok = true
+			}
+		}
+		if !ok {
+			stray = append(stray, k)
+			for _, c := range cids {
+				if bytes.Contains(kb, w.cid[c]) {
+					strayOf[c] = strayOf[c].(int) + 1
+				}
+			}
+		}
+	}
+	sort.Strings(oidx)
+	sort.Strings(tomb)
+	sort.Strings(meta)
+	sort.Strings(stray)
+	// ---- read API of the Container contract
+	get, owner, aeacl, aalias := map[string]any{}, map[string]any{}, map[string]any{}, map[string]any{}
+	for _, c := range cids {
+		id := w.cid[c]
+		st, err := w.c.Call(w.cn, "get", id)
+		switch {
+		case isNotFound(err):
+			get[c] = "nf"
+		case err != nil:
+			get[c] = "?err:" + err.Error()
+		default:
+			f := structFields(st[0])
+			vn := w.variantOf(w.vars, f)
+			if len(f) == 4 {
+				h := sha256.Sum256(chain.ItemBytes(f[0]))
+				if !bytes.Equal(h[:], id) {
+					vn = "?hash" // the returned blob does not hash to the id
+				}
+			}
+			get[c] = vn
+		}
+		st, err = w.c.Call(w.cn, "owner", id)
+		switch {
+		case isNotFound(err):
+			owner[c] = "nf"
+		case err != nil:
+			owner[c] = "?err:" + err.Error()
+		default:
+			owner[c] = "?" + hex.EncodeToString(chain.ItemBytes(st[0]))
+			for o, oid := range w.ownerID {
+				if bytes.Equal(oid, chain.ItemBytes(st[0])) {
+					owner[c] = o
+				}
+			}
+		}
+		st, err = w.c.Call(w.cn, "eACL", id)
+		switch {
+		case isNotFound(err):
+			aeacl[c] = "nf"
+		case err != nil:
+			aeacl[c] = "?err:" + err.Error()
+		default:
+			f := structFields(st[0])
+			if len(f) == 4 && len(chain.ItemBytes(f[0])) == 0 && len(chain.ItemBytes(f[1])) == 0 && len(chain.ItemBytes(f[2])) == 0 && len(chain.ItemBytes(f[3])) == 0 {
+				aeacl[c] = "empty"
+			} else {
+				vn := w.variantOf(w.evars, f)
+				if vn[0] != '?' && !bytes.Equal(chain.ItemBytes(f[0]), w.eaclBlob(c, vn)) {
+					vn = "?blob"
+				}
+				aeacl[c] = vn
+			}
+		}
+		st, err = w.c.Call(w.cn, "alias", id)
+		switch {
+		case isNotFound(err):
+			aalias[c] = "nf"
+		case err != nil:
+			aalias[c] = "?err:" + err.Error()
+		case st[0].Type() == stackitem.AnyT:
+			aalias[c] = "null"
+		default:
+			aalias[c] = w.nameOfDomain(string(chain.ItemBytes(st[0])))
+		}
+	}
+	list, cof := map[string]any{}, map[string]any{}
+	list["all"] = w.callList("list", []byte{})
+	cof["all"] = w.callList("containersOf", nil)
+	for o, oid := range w.ownerID {
+		list[o] = w.callList("list", oid)
+		cof[o] = w.callList("containersOf", oid)
+	}
+	st, err := w.c.Call(w.cn, "count")
+	require.NoError(w.t, err)
+	count := chain.ItemBig(st[0]).Int64()
+	// ---- NNS: owner and TXT records of every alias domain
+	dom, txt := map[string]any{}, map[string]any{}
+	for i := 1; i <= nNames; i++ {
+		nm := "n" + strconv.Itoa(i)
+		d := domainOf(nm)
+		st, err := w.c.Call(w.nns, "ownerOf", d)
+		switch {
+		case err != nil && bytes.Contains([]byte(err.Error()), []byte("token not found")):
+			dom[nm] = "free"
+		case err != nil:
+			dom[nm] = "?err:" + err.Error()
+		default:
+			h := chain.ItemBytes(st[0])
+			switch {
+			case bytes.Equal(h, w.cn.BytesBE()):
+				dom[nm] = "self"
+			case bytes.Equal(h, w.c.Cmt.ScriptHash().BytesBE()):
+				dom[nm] = "cmt"
+			case bytes.Equal(h, w.stranger.ScriptHash().BytesBE()):
+				dom[nm] = "x"
+			default:
+				dom[nm] = "?" + hex.EncodeToString(h)
+			}
+		}
+		recs := []string{}
+		if dom[nm] != "free" {
+			st, err = w.c.Call(w.nns, "getRecords", d, 16)
+			if err != nil {
+				recs = append(recs, "?err:"+err.Error())
+			} else {
+				for _, it := range structFields(st[0]) {
+					recs = append(recs, w.txtName(chain.ItemBytes(it)))
+				}
+			}
+			// resolve must agree with getRecords (both are used by clients)
+			st, err = w.c.Call(w.nns, "resolve", d, 16)
+			res := []string{}
+			if err == nil && st[0].Type() != stackitem.AnyT {
+				for _, it := range structFields(st[0]) {
+					res = append(res, w.txtName(chain.ItemBytes(it)))
+				}
+			}
+			if fmt.Sprint(res) != fmt.Sprint(recs) {
+				w.bad = append(w.bad, "nns.resolve!=getRecords:"+nm)
+			}
+		}
+		txt[nm] = recs
+	}
+	// ---- Balance and Netmap
+	bal := map[string]any{}
+	for o, s := range w.owners {
+		st, err := w.c.Call(w.bal, "balanceOf", s.ScriptHash())
+		require.NoError(w.t, err)
+		bal[o] = w.unscale(chain.ItemBig(st[0]), "bal."+o)
+	}
+	abal := []any{}
+	for k, p := range w.c.Privs {
+		st, err := w.c.Call(w.bal, "balanceOf", p.PublicKey().GetScriptHash())
+		require.NoError(w.t, err)
+		abal = append(abal, w.unscale(chain.ItemBig(st[0]), "abal."+strconv.Itoa(k+1)))
+	}
+	st, err = w.c.Call(w.bal, "totalSupply")
+	require.NoError(w.t, err)
+	supply := w.unscale(chain.ItemBig(st[0]), "supply")
+	strayBal := []string{}
+	for k, v := range w.c.Storage(w.bal) {
+		kb, _ := hex.DecodeString(k)
+		if len(kb) == 21 && kb[0] == 'a' {
+			if _, in := w.accName[hex.EncodeToString(kb[1:])]; !in {
+				strayBal = append(strayBal, k)
+			}
+			_ = v
+		}
+	}
+	sort.Strings(strayBal)
+	fee := w.config("ContainerFee")
+	afee := w.config("ContainerAliasFee")
+	// ---- NeoFSID: owners that have variant b's key bound
+	idk := []string{}
+	for o, oid := range w.ownerID {
+		st, err := w.c.Call(w.nid, "key", oid)
+		require.NoError(w.t, err)
+		if st[0].Type() != stackitem.AnyT {
+			for _, it := range structFields(st[0]) {
+				if bytes.Equal(chain.ItemBytes(it), w.vars["b"].pub) {
+					idk = append(idk, o)
+				} else {
+					w.bad = append(w.bad, "neofsid.unexpected-key:"+o)
+				}
+			}
+		}
+	}
+	sort.Strings(idk)
+	return map[string]any{"x": x, "oidx": oidx, "tomb": tomb, "meta": meta, "eacl": eacl, "alias": alias, "stray": stray, "strayOf": strayOf,
+		"get": get, "owner": owner, "aeacl": aeacl, "aalias": aalias, "list": list, "cof": cof, "count": count,
+		"dom": dom, "txt": txt, "bal": bal, "abal": abal, "supply": supply, "strayBal": strayBal, "fee": fee, "afee": afee,
+		"n": w.c.N, "idk": idk}
+}
+
+func (w *world) config(key string) int64 {
+	st, err := w.c.Call(w.nm, "config", key)
+	require.NoError(w.t, err)
+	if st[0].Type() == stackitem.AnyT {
+		w.bad = append(w.bad, "config.null:"+key)
+		return 0
+	}
+	return w.unscale(chain.ItemBig(st[0]), "config."+key)
+}
+
+func (w *world) nameOfDomain(d string) string {
+	for i := 1; i <= nNames; i++ {
+		nm := "n" + strconv.Itoa(i)
+		if d == domainOf(nm) {
+			return nm
+		}
+	}
+	return "?" + d
+}
+
+// txtName maps a TXT record (base58 of a cid, or "foreign") to a model value.
+func (w *world) txtName(data []byte) string {
+	if string(data) == "foreign" {
+		return "foreign"
+	}
+	if id, err := base58.Decode(string(data)); err == nil {
+		if c, in := w.cidName[hex.EncodeToString(id)]; in {
+			return c
+		}
+	}
+	return "?" + string(data)
+}
+
+func resetRec(idx int, sc *Scenario, obs map[string]any) chain.Rec {
+	return chain.Rec{"t": idx, "act": "reset", "S": []string{}, "c": "nil", "v": "nil", "nm": "nil", "meta": false, "o": "nil", "k": "nil",
+		"amt": 0, "res": "HALT", "ret": "null", "ntf": []any{}, "xfer": []any{}, "obs": obs, "bad": []string{},
+		"n": sc.N, "scale": sc.Scale, "src": sc.Src}
+}
+
+func runScenario(t *testing.T, rec *chain.Recorder, idx int, sc *Scenario, seed int64) {
+	w := newWorld(t, sc.N, sc.Scale, seed+int64(idx))
+	obs := w.observe()
+	require.Empty(t, w.bad, "initial observation")
+	rec.Emit(resetRec(idx, sc, obs))
+	for _, st := range sc.Steps {
+		if st.Act == "put" && st.C == "c0" {
+			continue // c0 is the never-used id
+		}
+		w.bad = nil
+		r := w.exec(st)
+		obs = w.observe()
+		r["obs"] = obs
+		if w.bad == nil {
+			w.bad = []string{}
+		}
+		r["bad"] = w.bad
+		r["t"] = idx
+		rec.Emit(r)
+	}
+}
+
+// ---- random scenarios (same vocabulary as the Spec, wider values) ----
+
+func randScenario(r *rand.Rand) *Scenario {
+	ns := []int{1, 3, 4, 7}
+	sc := &Scenario{N: ns[r.Intn(len(ns))], Scale: r.Intn(len(scales)), Src: "rand"}
+	pick := func(xs []string) string { return xs[r.Intn(len(xs))] }
+	cids := []string{"c1", "c2", "c3", "c4", "c5"}
+	allc := []string{"c0", "c1", "c2", "c3", "c4", "c5"}
+	names := []string{"n1", "n2", "n3"}
+	owners := []string{"o1", "o2", "o3"}
+	vs := []string{"a", "b"}
+	fee, afee := int64(0), int64(0)
+	bal := map[string]int64{}
+	sig := func() []string {
+		switch k := r.Intn(12); {
+		case k < 5:
+			return []string{"ALPHA"}
+		case k < 8:
+			return []string{"ALPHA", "CMT"}
+		case k == 8:
+			return []string{"CMT"}
+		case k == 9:
+			return []string{"M1"}
+		case k == 10:
+			return []string{"X", "CMT"}
+		default:
+			return []string{}
+		}
+	}
+	withFees := r.Intn(3) > 0
+	n := 10 + r.Intn(30)
+	for i := 0; i < n; i++ {
+		switch k := r.Intn(24); {
+		case k < 8:
+			c := pick(cids)
+			ci, _ := strconv.Atoi(c[1:])
+			o := cidOwner[ci]
+			nm := "nil"
+			if r.Intn(3) == 0 {
+				nm = pick(names)
+			}
+			meta := nm == "nil" && r.Intn(4) == 0
+			f := fee
+			if nm != "nil" {
+				f += afee
+			}
+			need := f * int64(sc.N)
+			// land the owner's balance on need-1 / need / need+1 (or leave it)
+			if withFees && r.Intn(2) == 0 {
+				target := need + int64(r.Intn(3)) - 1
+				if d := target - bal[o]; d > 0 {
+					sc.Steps = append(sc.Steps, Step{Act: "mint", S: []string{"ALPHA"}, C: "nil", V: "nil", Nm: "nil", O: o, K: "nil", Amt: d})
+					bal[o] += d
+				}
+			}
+			s := sig()
+			sc.Steps = append(sc.Steps, Step{Act: "put", S: s, C: c, V: pick(vs), Nm: nm, Meta: meta, O: "nil", K: "nil"})
+			if len(s) > 0 && s[0] == "ALPHA" && bal[o] >= need {
+				bal[o] -= need // approximately (the put may fail for other reasons)
+			}
+		case k < 12:
+			sc.Steps = append(sc.Steps, Step{Act: "delete", S: sig(), C: pick(allc), V: "nil", Nm: "nil", O: "nil", K: "nil"})
+		case k < 15:
+			sc.Steps = append(sc.Steps, Step{Act: "setEACL", S: sig(), C: pick(allc), V: pick(vs), Nm: "nil", O: "nil", K: "nil"})
+		case k < 18:
+			if !withFees {
+				continue
+			}
+			key := pick([]string{"fee", "afee"})
+			val := []int64{0, 0, 1, 2, 3, 5, 10}[r.Intn(7)]
+			s := sig()
+			sc.Steps = append(sc.Steps, Step{Act: "setConfig", S: s, C: "nil", V: "nil", Nm: "nil", O: "nil", K: key, Amt: val})
+			if len(s) > 0 && s[0] == "ALPHA" {
+				if key == "fee" {
+					fee = val
+				} else {
+					afee = val
+				}
+			}
+		case k < 20:
+			if !withFees {
+				continue
+			}
+			o := pick(owners)
+			m := int64(1 + r.Intn(30))
+			s := sig()
+			sc.Steps = append(sc.Steps, Step{Act: "mint", S: s, C: "nil", V: "nil", Nm: "nil", O: o, K: "nil", Amt: m})
+			if len(s) > 0 && s[0] == "ALPHA" {
+				bal[o] += m
+			}
+		case k < 22:
+			who := pick([]string{"cmt", "cmt", "x"})
+			s := []string{"CMT"}
+			if who == "x" {
+				s = []string{"X"}
+			}
+			if r.Intn(5) == 0 {
+				s = sig()
+			}
+			sc.Steps = append(sc.Steps, Step{Act: "nnsReg", S: s, C: "nil", V: "nil", Nm: pick(names), O: who, K: "nil"})
+		default:
+			sc.Steps = append(sc.Steps, Step{Act: "nnsAdd", S: []string{pick([]string{"CMT", "X"})}, C: "nil", V: "nil", Nm: pick(names), O: "nil", K: "nil"})
+		}
+	}
+	return sc
+}
+
+// ---- traps: witnesses of rare branches and of every defect found ----
+
+func st(act string, S []string, c, v, nm string) Step {
+	return Step{Act: act, S: S, C: c, V: v, Nm: nm, O: "nil", K: "nil"}
+}
+
+var (
+	sA  = []string{"ALPHA"}
+	sAC = []string{"ALPHA", "CMT"}
+)
+
+func mint(o string, m int64) Step {
+	return Step{Act: "mint", S: sA, C: "nil", V: "nil", Nm: "nil", O: o, K: "nil", Amt: m}
+}
+func setc(k string, v int64) Step {
+	return Step{Act: "setConfig", S: sA, C: "nil", V: "nil", Nm: "nil", O: "nil", K: k, Amt: v}
+}
+
+// registry life cycle: re-put live, delete missing, put after delete, name reuse after delete, taken name
+func trapLifecycle(n int) *Scenario {
+	return &Scenario{N: n, Scale: 0, Src: "trap:lifecycle", Steps: []Step{
+		st("delete", sA, "c1", "nil", "nil"), // missing
+		st("delete", []string{}, "c0", "nil", "nil"),
+		st("put", sA, "c1", "a", "nil"),
+		st("put", sA, "c1", "b", "nil"), // re-put live with another descriptor
+		st("setEACL", sA, "c1", "a", "nil"),
+		st("setEACL", sA, "c1", "b", "nil"),
+		st("put", sA, "c2", "a", "n1"),
+		st("put", sA, "c3", "a", "n1"), // taken
+		st("put", sA, "c2", "a", "n1"), // same container, same name: taken as well
+		{Act: "put", S: sA, C: "c4", V: "b", Nm: "nil", Meta: true, O: "nil", K: "nil"},
+		st("put", sA, "c2", "b", "nil"), // unnamed re-put of a named container keeps the alias
+		st("delete", []string{"X"}, "c2", "nil", "nil"),
+		st("delete", sA, "c2", "nil", "nil"),
+		st("put", sA, "c2", "a", "nil"), // replay
+		st("put", sA, "c3", "a", "n1"),  // name reuse after deletion
+		st("setEACL", sA, "c2", "a", "nil"),
+		st("delete", sA, "c4", "nil", "nil"),
+		st("delete", sA, "c1", "nil", "nil"),
+		st("delete", sA, "c1", "nil", "nil"),
+		st("put", sA, "c5", "a", "n2"),
+		st("delete", sA, "c3", "nil", "nil"),
+		st("delete", sA, "c5", "nil", "nil"),
+	}}
+}
+
+// alias domain registered in advance by the committee / by a stranger; foreign TXT record
+func trapPreRegistered(n int) *Scenario {
+	return &Scenario{N: n, Scale: 0, Src: "trap:preregistered", Steps: []Step{
+		{Act: "nnsReg", S: []string{"CMT"}, C: "nil", V: "nil", Nm: "n1", O: "cmt", K: "nil"},
+		{Act: "nnsReg", S: []string{"X"}, C: "nil", V: "nil", Nm: "n2", O: "x", K: "nil"},
+		{Act: "nnsReg", S: []string{"CMT"}, C: "nil", V: "nil", Nm: "n1", O: "cmt", K: "nil"}, // false
+		st("put", sA, "c1", "a", "n2"),  // stranger owns the domain
+		st("put", sA, "c1", "a", "n1"),  // committee-owned: needs the committee witness for addRecord (n = 3, 7)
+		st("put", sAC, "c1", "a", "n1"), // fine
+		st("delete", sA, "c1", "nil", "nil"),
+		st("delete", sAC, "c1", "nil", "nil"),
+		{Act: "nnsAdd", S: []string{"CMT"}, C: "nil", V: "nil", Nm: "n1", O: "nil", K: "nil"},
+		st("put", sAC, "c2", "a", "n1"), // taken by the foreign record
+		{Act: "nnsAdd", S: []string{"X"}, C: "nil", V: "nil", Nm: "n2", O: "nil", K: "nil"},
+		{Act: "nnsAdd", S: []string{"X"}, C: "nil", V: "nil", Nm: "n3", O: "nil", K: "nil"},
+	}}
+}
+
+// witness of DESIGN 5.4 row 9: re-putNamed of a live container under a second name
+func trapSecondName(n int) *Scenario {
+	return &Scenario{N: n, Scale: 0, Src: "trap:secondname", Steps: []Step{
+		st("put", sA, "c1", "a", "n1"),
+		st("put", sA, "c1", "a", "n2"),
+		st("delete", sA, "c1", "nil", "nil"),
+		st("put", sA, "c2", "a", "n1"), // the first name can never be reused
+		st("put", sA, "c2", "a", "n2"),
+	}}
+}
+
+// fee boundaries: owner balance at F*N-1 / F*N / F*N+1, fee changes between puts, fee 0
+func trapFees(n int, scale int) *Scenario {
+	N := int64(n)
+	return &Scenario{N: n, Scale: scale, Src: "trap:fees", Steps: []Step{
+		st("put", sA, "c1", "a", "nil"), // both fees 0
+		setc("fee", 3), setc("afee", 2),
+		mint("o1", 3*N-1),
+		st("put", sA, "c1", "b", "nil"), // one short
+		mint("o1", 1),
+		st("put", []string{"CMT"}, "c1", "b", "nil"), // exact, but only the committee signs
+		st("put", sA, "c1", "b", "nil"),              // exact
+		mint("o1", 5*N+1),
+		st("put", sA, "c2", "a", "n1"), // one above
+		st("put", sA, "c2", "a", "nil"),
+		mint("o2", 5*N-1),
+		st("put", sA, "c3", "a", "n2"), // alias fee missing
+		st("put", sA, "c3", "a", "nil"),
+		setc("fee", 0),
+		st("put", sA, "c4", "a", "n2"), // only the alias fee
+		setc("afee", 0),
+		st("put", sA, "c4", "b", "nil"),
+		setc("fee", 7),
+		st("put", sA, "c5", "a", "nil"), // o3 has nothing
+		mint("o3", 7*N),
+		st("put", sA, "c5", "a", "nil"),
+		st("delete", sA, "c5", "nil", "nil"),
+		mint("o3", 7*N),
+		st("put", sA, "c5", "a", "nil"), // tombstoned: nothing is charged
+	}}
+}
+
+func TestDrive(t *testing.T) {
+	out := os.Getenv("VERIF_OUT")
+	if out == "" {
+		t.Skip("VERIF_OUT not set")
+	}
+	if os.Getenv("VERIF_FAMMODE") == "roster" {
+		driveRoster(t, out)
+		return
+	}
+	seed, _ := strconv.ParseInt(os.Getenv("VERIF_SEED"), 10, 64)
+	nrand, _ := strconv.Atoi(os.Getenv("VERIF_NRAND"))
+	shard, _ := strconv.Atoi(os.Getenv("VERIF_SHARD"))
+	nshard, _ := strconv.Atoi(os.Getenv("VERIF_NSHARD"))
+	if nshard == 0 {
+		nshard = 1
+	}
+	var scs []*Scenario
+	if p := os.Getenv("VERIF_SCEN"); p != "" {
+		data, err := os.ReadFile(p)
+		require.NoError(t, err)
+		require.NoError(t, json.Unmarshal(data, &scs))
+	}
+	ns := []int{1, 3, 4, 7}
+	for i, sc := range scs {
+		if sc.N == 0 {
+			sc.N = ns[i%len(ns)]
+		}
+		if sc.Src == "" {
+			sc.Src = "tlc"
+			sc.Scale = i % len(scales)
+		}
+	}
+	if os.Getenv("VERIF_NOTRAPS") == "" {
+		for _, n := range ns {
+			scs = append(scs, trapLifecycle(n), trapPreRegistered(n), trapSecondName(n), trapFees(n, n%len(scales)))
+		}
+	}
+	r := rand.New(rand.NewSource(seed*7919 + 17))
+	for i := 0; i < nrand; i++ {
+		scs = append(scs, randScenario(r))
+	}
+	rec := chain.NewRecorder(t, out)
+	for i, sc := range scs {
+		if i%nshard != shard {
+			continue
+		}
+		runScenario(t, rec, i, sc, seed)
+	}
+	rec.Close()
+	stats, _ := json.Marshal(map[string]any{"lines": rec.N, "scenarios": len(scs), "acts": rec.Acts})
+	fmt.Println("DRIVER-STATS " + string(stats))
 }
